@@ -5,6 +5,7 @@ import (
 	"fmt"
 	"os"
 	"sort"
+	"strings"
 
 	rspec "github.com/opencontainers/runtime-spec/specs-go"
 	rgen "github.com/opencontainers/runtime-tools/generate"
@@ -117,12 +118,16 @@ type SpecFamilies struct {
 	Rlimits     string   `json:"rlimits"`
 	Devices     string   `json:"devices"`
 	DevRules    []string `json:"devRules"`
-	Resources   string   `json:"resources"`
-	BlockIO     string   `json:"blockio"`
-	Rdt         string   `json:"rdt"`
-	CgroupsPath string   `json:"cgroupsPath"`
-	OomScoreAdj string   `json:"oomScoreAdj"`
-	Rest        string   `json:"rest"`
+	// StaleUnexplained (sequential side only): rules the sequential spec has and the combined one
+	// lacks that do NOT belong to a device some plugin added and a later plugin removed or
+	// replaced - the only stale rules the recorded known finding is about.
+	StaleUnexplained []string `json:"staleUnexplained"`
+	Resources        string   `json:"resources"`
+	BlockIO          string   `json:"blockio"`
+	Rdt              string   `json:"rdt"`
+	CgroupsPath      string   `json:"cgroupsPath"`
+	OomScoreAdj      string   `json:"oomScoreAdj"`
+	Rest             string   `json:"rest"`
 }
 
 // js renders canonically: a nil map/slice and an empty one are the same thing to every reader
@@ -234,6 +239,43 @@ func CombinedVsSequential(in *CaseIn, combined *api.ContainerAdjustment) (comb, 
 		}
 	}
 	fa, fb := Families(a), Families(b)
+	// which allow rules may legitimately be stale in the sequential spec
+	explained := map[string]bool{}
+	for i := range in.Plugins {
+		if in.Plugins[i].Adjust == nil {
+			continue
+		}
+		for _, d := range ToDevices(in.Plugins[i].Adjust.Devices) {
+			if strings.HasPrefix(d.Path, "-") {
+				continue
+			}
+			later := false
+			for j := i + 1; j < len(in.Plugins) && !later; j++ {
+				if in.Plugins[j].Adjust == nil {
+					continue
+				}
+				for _, e := range in.Plugins[j].Adjust.Devices {
+					if e.Path == d.Path || e.Path == "-"+d.Path {
+						later = true
+					}
+				}
+			}
+			if later {
+				major, minor := d.Major, d.Minor
+				explained[js(rspec.LinuxDeviceCgroup{Allow: true, Type: d.Type, Major: &major, Minor: &minor, Access: d.AccessString()})] = true
+			}
+		}
+	}
+	have := map[string]bool{}
+	for _, r := range fa.DevRules {
+		have[r] = true
+	}
+	fb.StaleUnexplained = []string{}
+	for _, r := range fb.DevRules {
+		if !have[r] && !explained[r] {
+			fb.StaleUnexplained = append(fb.StaleUnexplained, r)
+		}
+	}
 	return &fa, &fb, nil
 }
 
